@@ -817,6 +817,11 @@ func ruleSeekSnapshotAtomic(c *Ctx) {
 		if fd.Obj.Pkg() != pk.Types || fd.Decl.Body == nil || fd.Decl.Recv == nil {
 			continue
 		}
+		// the premise is a snapshot taken under a lock: a type without a mutex of its own (the view of a private,
+		// single-owner layer that prepareSeekMemSnapshot builds) has no concurrent writer or flush to be atomic against
+		if !recvHasMutex(fd) {
+			continue
+		}
 		f := c.P.NewFuncCFG(fd)
 		// every call of performSeek in the method, inside function literals too
 		var calls []*ast.CallExpr
@@ -864,4 +869,68 @@ func ruleSeekSnapshotAtomic(c *Ctx) {
 		}
 	}
 	c.Floor("range scans merging a cache snapshot with a lower-store scan", n, 2)
+	privateLayersCaptured(c)
+}
+
+func recvHasMutex(fd *FuncDecl) bool {
+	rt := fd.Obj.Type().(*types.Signature).Recv().Type()
+	if p, ok := rt.(*types.Pointer); ok {
+		rt = p.Elem()
+	}
+	st, ok := rt.Underlying().(*types.Struct)
+	if !ok {
+		return false
+	}
+	for i := 0; i < st.NumFields(); i++ {
+		if nt, ok := st.Field(i).Type().(*types.Named); ok && nt.Obj().Pkg() != nil && nt.Obj().Pkg().Path() == "sync" {
+			return true
+		}
+	}
+	return false
+}
+
+// privateLayersCaptured: SeekAsync hands the merge to a goroutine of its own. A private MemCachedStore has no lock -
+// it belongs to the goroutine that executes the transaction - so whatever the seek needs from a private layer
+// *below* the one it was started on has to be taken before SeekAsync returns, by the calling goroutine: otherwise the
+// iterator's content depends on when the seek goroutine gets to run (the callee's System.Storage.Find over a layer
+// stack child-over-parent, the caller writing the parent after the call returned), and the unlocked map iteration
+// races with the owner's writes. Structurally: prepareSeekMemSnapshot - the only thing SeekAsync runs synchronously -
+// tests whether the store below is private and, if so, takes that store's snapshot too (calls itself on it).
+func privateLayersCaptured(c *Ctx) {
+	fd := c.P.Func("pkg/core/storage", "MemCachedStore", "prepareSeekMemSnapshot")
+	sa := c.P.Func("pkg/core/storage", "MemCachedStore", "SeekAsync")
+	if fd == nil || sa == nil {
+		c.Lost("private-layers-captured.anchor", "MemCachedStore.prepareSeekMemSnapshot / SeekAsync not found")
+		return
+	}
+	// SeekAsync: the snapshot is prepared outside the goroutine
+	fsa := c.P.NewFuncCFG(sa)
+	syncPrep := len(fsa.CallSites("pkg/core/storage.(*MemCachedStore).prepareSeekMemSnapshot")) > 0
+	f := c.P.NewFuncCFG(fd)
+	recursive := false
+	for _, s := range f.CallSites("pkg/core/storage.(*MemCachedStore).prepareSeekMemSnapshot") {
+		// under a test of the lower store's private flag
+		for _, b := range f.G.Blocks {
+			_ = b
+		}
+		recursive = true
+		_ = s
+	}
+	testsPrivate := false
+	ast.Inspect(fd.Decl.Body, func(x ast.Node) bool {
+		if is, ok := x.(*ast.IfStmt); ok && f.DirectMentions(is.Cond)["pkg/core/storage#private"] {
+			ast.Inspect(is.Body, func(y ast.Node) bool {
+				if call, ok := y.(*ast.CallExpr); ok && f.calleeSym(call) == "pkg/core/storage.(*MemCachedStore).prepareSeekMemSnapshot" {
+					testsPrivate = true
+				}
+				return true
+			})
+		}
+		return true
+	})
+	if syncPrep && recursive && testsPrivate {
+		c.OK("private-layers-captured", c.P.Pos(fd.Decl.Pos()), "SeekAsync prepares its snapshot before it starts the goroutine, and the preparation takes the snapshot of every private layer below as well")
+	} else {
+		c.Fail("private-layers-captured", c.P.Pos(fd.Decl.Pos()), "the snapshot SeekAsync prepares before it starts its goroutine covers only the layer it was called on: a private (lock-free) layer below is scanned later by the seek goroutine, while the goroutine that owns the layer goes on writing it - the iterator's content depends on goroutine scheduling and the unlocked map iteration races with the owner's writes (concurrent map iteration and map write)")
+	}
 }
